@@ -12,6 +12,7 @@ CONSTANTS
   Weights = {50, 100}
   MaxOps = 0
   Emit = FALSE
+  ReprOf <- ReprId
 INVARIANTS StructureOK MemberOnly
 VIEW View
 CHECK_DEADLOCK FALSE
